@@ -32,6 +32,9 @@ def run(ctx):
     ctx.rule("R12-9", "the `.` and `..` entries glob adds for dot-leading patterns are filtered: expand_glob compares the last "
                       "component of each match with \".\" and \"..\", and the helper that computes it is purely textual "
                       "(the text after the last `/`) - no std::path accessor, which normalises exactly those two names away")
+    ctx.rule("R12-10", "the text around the braces is kept: the words expand_brace_range records for a token are built from the "
+                       "token's own text outside the match (pieces of split / a slice / a replace on the token) as well as "
+                       "from the counter - a list made of the formatted numbers alone turns `a{1..3}b` into `1 2 3`")
     ctx.rule("R12-4", "the home directory is not interpreted as a regex replacement template")
     for crate in ctx.crates:
         res = etag.run_sites(ctx, "R12-1", crate, fn_filter=lambda p: p in PASSES)
@@ -50,6 +53,7 @@ def run(ctx):
         n_ = editlist.rule(ctx, crate, "R12-7", PASSES)
         ctx.floor("R12-7", crate, "passes with a token vector", n_, 4)
         range_rule(ctx, crate)
+        range_context_rule(ctx, crate)
         home_current_rule(ctx, crate)
         dot_entries_rule(ctx, crate)
 
@@ -379,3 +383,40 @@ def dot_entries_rule(ctx, crate):
                detail=None if ok else "uses %s: Path::file_name() is None for `..` and drops a trailing `/.`, so `dir/..` and "
                "`dir/.` are no longer recognised and `.*` expands to them" % (pathy or "no textual split"))
     ctx.require(bool(helpers), "R12-9", "R12-9|%s|helper" % b.path, "no local helper computing the compared component found", b.path)
+
+
+def range_context_rule(ctx, crate):
+    b = crate.fn("shell::expand_brace_range")
+    if not ctx.require(b is not None, "R12-10", "R12-10|anchor", "shell::expand_brace_range not found"):
+        return
+    ctx.analysed(b)
+    # the edit list and what is recorded into it
+    rec = []
+    for bb, t, c in b.calls():
+        if last_seg(c) == "push" and "Vec" in c:
+            a = b.call_args(bb)
+            if len(a) == 2 and a[0][0] in ("var", "ref", "tmp", "deref", "addr") or len(a) == 2:
+                root = mir.root_local_expr(b.expand_vars(strip_sites(a[0])))
+                if root is not None and b.locals[root]["ty"].startswith("std::vec::Vec<(usize"):
+                    v = strip_sites(a[1])
+                    if v[0] == "agg" and v[1] == "tuple" and len(v[2]) == 2:
+                        rec.append((bb, v[2][1]))
+    if not ctx.require(bool(rec), "R12-10", "R12-10|%s|record" % b.path, "no (index, words) record found", b.path):
+        return
+    # the scanned token's text: field 1 of the item of the loop over the token vector
+    tokl = None
+    for l in range(1, b.arg_count + 1):
+        if "Vec<(std::string::String, std::string::String)>" in b.locals[l]["ty"]:
+            tokl = l
+    is_parse = lambda z: z[0] == "call" and last_seg(z[1]) in ("parse", "from_str", "from_str_radix")
+    is_token_text = lambda z: z[0] == "call" and last_seg(z[1]) in ("next",) and z[2] and \
+        flow.backward(b, z[2][0], lambda y: y[0] in ("var", "param") and y[1] == tokl, through_containers=False) is not None
+    for bb, words in rec:
+        textual = flow.backward(b, words, is_token_text, stop=is_parse)
+        numeric = flow.backward(b, words, is_parse)
+        ok = textual is not None and numeric is not None
+        ctx.ob("R12-10", b.path, "the recorded words derive from the counter and from the token's text outside the number "
+                                 "captures", ok, key="R12-10|%s|context-kept" % b.path, where=b.loc(bb), crate=crate.kind,
+               detail=None if ok else ("the words are the formatted numbers only: text before / after the braces (and any "
+                                       "further range in the word) is lost" if numeric is not None else
+                                       "the words do not derive from the parsed bounds"))
